@@ -81,12 +81,35 @@ Definition pts_eqb : list (list (option ty)) -> list (list (option ty)) -> bool 
   list_eqb (list_eqb (option_eqb ty_eqb)).
 
 (* ---------------------------------------------------------------- correspondence: implementation = model *)
+(* The oracle of the model (model/Resolve.v, descr_choice: does the implementation keep the description an opaque
+   operation was loaded with, or write its definition's?) is read off the implementation's own result: it kept the
+   description of c when some observed (operation before, operation after) pair has c before and a definition-backed
+   operation carrying c's description after.  Either answer is admissible; when the two descriptions coincide the
+   answers coincide.  A result carrying a third string matches the model under neither answer (corr fails) and is
+   rejected by the specification (rop_b / same_but_descr_b in mon). *)
+Definition chose_keep (pairs : list (op * op)) : descr_choice :=
+  fun c => existsb (fun p => match p with
+                             | (OCustom c', OExt x) => custom_eqb c c' && N.eqb (x_descr x) (c_descr c)
+                             | _ => false
+                             end) pairs.
+Definition node_pairs (nodes : list node_obs) : list (op * op) := map (fun n => (n_op n, n_res n)) nodes.
+Definition whole_pairs (h0 h1 : hugrT) : list (op * op) :=
+  flat_map (fun p => match p with
+                     | (Some n, Some n') => match SerialHugr.n_op n, SerialHugr.n_op n' with
+                                            | HOp a, HOp b => [(a, b)]
+                                            | _, _ => []
+                                            end
+                     | _ => []
+                     end) (combine (h_nodes h0) (h_nodes h1)).
+
 Definition port_types (o : op) : list ty :=
   match outer_signature o with Some f => ft_in f ++ ft_out f | None => [] end.
 Definition corr_node (reg : registry) (n : node_obs) : bool :=
   let o := n_op n in
-  let r := resolve_op reg o in
-  op_eqb (n_res n) r && op_eqb (n_res2 n) (resolve_op reg r) &&
+  (* the choice made at this node; the second call has nothing to choose for (C11_resolve_idempotent) *)
+  let keep := chose_keep [(n_op n, n_res n)] in
+  let r := resolve_op reg keep o in
+  op_eqb (n_res n) r && op_eqb (n_res2 n) (resolve_op reg keep r) &&
   option_eqb op_eqb (n_ser0 n) (ser_op o) && option_eqb op_eqb (n_ser1 n) (ser_op r) &&
   option_eqb export_eqb (n_exp0 n) (export_op o) && option_eqb export_eqb (n_exp1 n) (export_op r) &&
   list_eqb ty_eqb (n_pt0 n) (port_types o) && list_eqb ty_eqb (n_pt1 n) (port_types r) &&
@@ -107,13 +130,15 @@ Definition corr (c : case) : bool :=
       option_eqb tyarg_eqb (a_ser0 o) (ser_arg a) && option_eqb tyarg_eqb (a_ser1 o) (ser_arg r) &&
       option_eqb term_eqb (a_mod0 o) (arg_to_model a) && option_eqb term_eqb (a_mod1 o) (arg_to_model r)
   | CHugr reg nodes rest =>
+      let keep := chose_keep (node_pairs nodes) in
       forallb (corr_node reg) nodes &&
-      implb (forallb (fun n => match ser_op (resolve_op reg (n_op n)) with Some _ => true | None => false end) nodes) rest &&
+      implb (forallb (fun n => match ser_op (resolve_op reg keep (n_op n)) with Some _ => true | None => false end) nodes) rest &&
       (* Hugr.resolve_extensions as a whole *)
-      list_eqb op_eqb (map n_res nodes) (resolve_hugr reg (map n_op nodes))
+      list_eqb op_eqb (map n_res nodes) (resolve_hugr reg keep (map n_op nodes))
   | CWhole reg w =>
-      let r := resolve_extensions reg (w_h0 w) in
-      hugr_eqb r (w_h1 w) && hugr_eqb (resolve_extensions reg (w_h1 w)) (w_h2 w) &&
+      let keep := chose_keep (whole_pairs (w_h0 w) (w_h1 w)) in
+      let r := resolve_extensions reg keep (w_h0 w) in
+      hugr_eqb r (w_h1 w) && hugr_eqb (resolve_extensions reg keep (w_h1 w)) (w_h2 w) &&
       option_eqb doc_eqb (hugr_doc (w_h0 w)) (w_doc0 w) && option_eqb doc_eqb (hugr_doc r) (w_doc1 w) &&
       pts_eqb (w_pt0 w) (model_pts (w_h0 w)) && pts_eqb (w_pt1 w) (model_pts r)
   end.
